@@ -21,13 +21,16 @@ class ComposedResponse(ComposedMessage):
 		response = self.response
 
 		status = int(response.status)
-		if status < 200 or status in (204, 205, 304):
+		bodiless = status < 200 or status in (204, 205, 304)
+		if bodiless:
 			# 1XX, 204 NO_CONTENT, 205 RESET_CONTENT, 304 NOT_MODIFIED
 			response.body = None
+			self.chunked = False  # no message body: not even the last chunk (RFC 7230 Section 3.3.1)
 
 		if 'Content-Encoding' in response.headers:
 			response.body.content_encoding = response.headers.element('Content-Encoding')
-			self.chunked = True  # TODO: workaround for not calculate Content-Length again
+			if not bodiless:
+				self.chunked = True  # TODO: workaround for not calculate Content-Length again
 
 		self.chunked = self.chunked
 		if not self.chunked:
@@ -61,6 +64,7 @@ class ComposedResponse(ComposedMessage):
 
 		if self.request.method == u'HEAD':
 			response.body = None  # RFC 2616 Section 9.4
+			response.body.chunked = False  # the header fields stay as for GET, but nothing is sent after them: no last chunk either
 
 	def prepare_ranges(self) -> bool:
 		if not all(self.range_conditions()):
